@@ -726,3 +726,176 @@ func TestCallbackCombinations(t *testing.T) {
 	}
 	harness.Exhaustive("server-lifecycle", "all 16 set/unset combinations of OnServe/OnError/OnAccept/OnClose x {shutdown with in-flight request, context cancellation}", 32)
 }
+
+// ---------------------------------------------------------------------------
+// the same Server value served a second time after its first serve call ended by context cancellation
+
+type twiceCase struct {
+	Leftover int    `json:"leftover"` // connections of the first serve whose handler is still running when it is cancelled
+	DelayMs  int    `json:"delay_ms"` // duration of those handlers
+	Later    int    `json:"later"`    // connections made to the second serve
+	Seed     uint64 `json:"seed"`
+}
+
+func runTwice(c twiceCase) harness.Result {
+	ev := &events{accepts: map[string][]uint64{}, closes: map[string]int{}, started: map[string]int{}, served: make(chan string, 4), rejectIx: map[int]bool{}}
+	h := &handler{ev: ev, dev: device.New(c.Seed)}
+	s := &server.Server{ReadTimeout: 5 * time.Millisecond, OnErrorFunc: func(error) {}}
+	s.OnServeFunc = func(a net.Addr) { ev.served <- a.String() }
+	tolds := map[string]uint64{} // guarded by ev.mu
+	s.OnAcceptConnFunc = func(ctx context.Context, ra net.Addr, n uint64) error {
+		ev.mu.Lock()
+		tolds[ra.String()] = n
+		ev.mu.Unlock()
+		return nil
+	}
+	s.OnCloseConnFunc = func(ctx context.Context, ra net.Addr, isShutdown bool) {
+		ev.mu.Lock()
+		ev.closes[ra.String()]++
+		ev.mu.Unlock()
+	}
+	serveOnce := func() (string, context.CancelFunc, chan error, net.Listener, error) {
+		l, err := net.Listen("tcp", "127.0.0.1:0")
+		if err != nil {
+			return "", nil, nil, nil, err
+		}
+		ctx, cancel := context.WithCancel(context.Background())
+		ch := make(chan error, 1)
+		go func() { ch <- s.Serve(ctx, l, h) }()
+		select {
+		case a := <-ev.served:
+			return a, cancel, ch, l, nil
+		case e := <-ch:
+			cancel()
+			return "", nil, nil, l, fmt.Errorf("serve returned at once: %v", e)
+		case <-time.After(5 * time.Second):
+			cancel()
+			return "", nil, nil, l, errors.New("OnServeFunc not called within 5 s")
+		}
+	}
+	addr1, cancel1, ch1, _, err := serveOnce()
+	if err != nil {
+		return harness.Fail("first serve: %v", err)
+	}
+	var conns []net.Conn
+	defer func() {
+		for _, cn := range conns {
+			_ = cn.Close()
+		}
+	}()
+	// check compares the count told to the accept callback with what the harness knows for certain: every connection counted in lo
+	// is open and nothing can have ended it yet; hi additionally counts connections that may or may not have ended already
+	check := func(who, local string, lo, hi uint64) error {
+		if !ev.wait(5*time.Second, func() bool { _, ok := tolds[local]; return ok }) {
+			return fmt.Errorf("%s: accept callback not called within 5 s", who)
+		}
+		ev.mu.Lock()
+		n := tolds[local]
+		ev.mu.Unlock()
+		if n < lo || n > hi {
+			return fmt.Errorf("%s: accept callback reported connectionCount=%d, the number of live connections including the new one is %d..%d", who, n, lo, hi)
+		}
+		return nil
+	}
+	var want [][]byte
+	for i := 0; i < c.Leftover; i++ {
+		cn, err := net.DialTimeout("tcp", addr1, 3*time.Second)
+		if err != nil {
+			return harness.Fail("dial: %v", err)
+		}
+		conns = append(conns, cn)
+		// the earlier connections are open (their handlers run or have finished; nobody closes them while the serve call is active)
+		if err := check(fmt.Sprintf("first serve, connection %d", i), cn.LocalAddr().String(), uint64(i+1), uint64(i+1)); err != nil {
+			cancel1()
+			return harness.Fail("%v", err)
+		}
+		req := spec.EncodeRequest(spec.TCP, spec.Req{FC: 3, Unit: uint8(c.DelayMs), Tx: uint16(i + 1), Addr: uint16(10 * i), Qty: 2})
+		want = append(want, device.New(c.Seed).Answer(spec.TCP, req))
+		if _, err := cn.Write(req); err != nil {
+			cancel1()
+			return harness.Fail("write: %v", err)
+		}
+		local := cn.LocalAddr().String()
+		if !ev.wait(5*time.Second, func() bool { return ev.started[local] > 0 }) {
+			cancel1()
+			return harness.Fail("handler did not start within 5 s")
+		}
+	}
+	// the first serve ends while those handlers are running
+	cancel1()
+	if e, ok := waitErr(ch1, 3*time.Second, 12*time.Second); !ok {
+		return harness.Fail("the first serve call did not return within 15 s after its context was cancelled")
+	} else if !errors.Is(e, server.ErrServerClosed) {
+		return harness.Fail("the cancelled serve call returned %v", e)
+	}
+	addr2, cancel2, ch2, _, err := serveOnce()
+	if err != nil {
+		// serving a second time is refused: nothing further to judge
+		return harness.Result{Labels: []string{"second-serve-refused"}}
+	}
+	defer cancel2()
+	fail := func(format string, args ...interface{}) harness.Result {
+		cancel2()
+		_, _ = shutdownWithin(s, time.Second)
+		return harness.Fail(format, args...)
+	}
+	for i := 0; i < c.Later; i++ {
+		cn, err := net.DialTimeout("tcp", addr2, 3*time.Second)
+		if err != nil {
+			return fail("dial to the second serve: %v", err)
+		}
+		conns = append(conns, cn)
+		// connection 0: the connections left from the first serve may or may not have ended yet. Later ones: their close callbacks
+		// have been seen, so exactly the connections of the second serve (which nobody closes) are live.
+		lo, hi := uint64(i+1), uint64(i+1)
+		if i == 0 {
+			hi = uint64(c.Leftover + 1)
+		}
+		if err := check(fmt.Sprintf("second serve of the same Server value, connection %d (%d connections of the first serve had handlers running when it was cancelled)", i, c.Leftover), cn.LocalAddr().String(), lo, hi); err != nil {
+			return fail("%v", err)
+		}
+		if i == 0 {
+			// the connections left over from the first serve finish now: replies arrive, the server closes them
+			for k := 0; k < c.Leftover; k++ {
+				got, err := readFull(conns[k], len(want[k]), 5*time.Second)
+				if err != nil || !bytes.Equal(got, want[k]) {
+					return fail("request in flight when the first serve was cancelled: received %x (%v), want %x", got, err, want[k])
+				}
+				local := conns[k].LocalAddr().String()
+				if !ev.wait(5*time.Second, func() bool { return ev.closes[local] > 0 }) {
+					return fail("connection of the cancelled serve: close callback not called within 5 s after its handler finished")
+				}
+			}
+		}
+	}
+	err, returned := shutdownWithin(s, 10*time.Second)
+	if !returned || err != nil {
+		return fail("Shutdown of the second serve: returned=%v err=%v", returned, err)
+	}
+	if e, ok := waitErr(ch2, 3*time.Second, 12*time.Second); !ok || !errors.Is(e, server.ErrServerClosed) {
+		return harness.Fail("after Shutdown the second serve call returned %v (returned=%v), want ErrServerClosed", e, ok)
+	}
+	for _, cn := range conns {
+		local := cn.LocalAddr().String()
+		if !ev.wait(5*time.Second, func() bool { return ev.closes[local] > 0 }) {
+			return harness.Fail("close callback not called for %s within 5 s after Shutdown", local)
+		}
+	}
+	ev.mu.Lock()
+	defer ev.mu.Unlock()
+	for k, n := range ev.closes {
+		if n != 1 {
+			return harness.Fail("close callback ran %d times for %s", n, k)
+		}
+	}
+	return harness.Result{NonTrivial: c.Leftover > 0 && c.Later > 0, Labels: []string{"served-twice"}}
+}
+
+var chkTwice = harness.Define("serve-twice",
+	func(t *rapid.T) twiceCase {
+		return twiceCase{Leftover: rapid.IntRange(0, 3).Draw(t, "leftover"), DelayMs: rapid.SampledFrom([]int{40, 80, 150}).Draw(t, "delay"), Later: rapid.IntRange(2, 4).Draw(t, "later"), Seed: rapid.Uint64().Draw(t, "seed")}
+	}, runTwice)
+
+func TestServeTwice(t *testing.T) {
+	chkTwice.Rapid(t, harness.Pick(4, 150))
+}
